@@ -3544,8 +3544,10 @@ class SetInstance(object):
             except:
                 for undo_func in reversed(undo_funcs): undo_func()
                 raise
+        # for one-to-many relationships the items were already removed from setdata (and setdata.count was
+        # already decreased) by reverse_remove() called from reverse.__set__() / item._delete_() above
+        if setdata.count is not None: setdata.count -= len(items & setdata)
         setdata -= items
-        if setdata.count is not None: setdata.count -= len(items)
         added = setdata.added
         removed = setdata.removed
         if added: (items, setdata.added) = (items - added, added - items)
